@@ -3,6 +3,8 @@ package main
 import (
 	"math"
 
+	"github.com/openGemini/openGemini/lib/raftlog"
+
 	"verifharness/internal/gen"
 )
 
@@ -40,7 +42,51 @@ func witnessCases() [][]Op {
 			q(1, 3), q(29997, 30001), {K: "sum"}},
 		// W4: rotation by size (7 entries of 4.5 MiB per file), conflict into the first file at slot 3
 		{save(seg(1, 16, 1, 0, 4718592, 11)), save(seg(4, 2, 3, 0, 100, 5)), q(1, 2), q(1, 6), {K: "reopen"}, q(1, 6), {K: "sum"}},
+		// W5: three files (1-6, 7-12, 13-16): queries, snapshot and a conflicting save exactly at the first index of the
+		// middle file and of the current file
+		{save(seg(1, 16, 1, 0, 4718592, 11)), {K: "term", I: 7}, {K: "term", I: 13}, {K: "term", I: 12}, q(7, 8), q(6, 8), q(12, 14),
+			save(seg(13, 2, 2, 0, 50, 9)), {K: "sum"}, save(seg(7, 8, 3, 0, 70, 1)), {K: "term", I: 7}, {K: "sum"},
+			save(seg(15, 8, 3, 0, 4718592, 30)), {K: "term", I: 15}, {K: "term", I: 21},
+			{K: "csnap", I: 15, Snap: &SnapD{V: []uint64{1, 2}, D: 3}}, {K: "del", I: 15}, {K: "term", I: 15}, {K: "reopen"}, {K: "term", I: 21}, {K: "sum"}},
 	}
+}
+
+// crashCases: Saves with a crash image before every file-system step, and Saves in which one step fails.
+func crashCases() [][]Op {
+	save := func(k string, hs *[3]uint64, sn *SnapD, s ...Seg) Op { return Op{K: k, Segs: s, HS: hs, Snap: sn} }
+	v3 := []uint64{1, 2, 3}
+	cs := [][]Op{
+		// K0: append with hard state committing the new entries and a snapshot
+		{save("save", &[3]uint64{1, 1, 5}, nil, seg(1, 5, 1, 0, 7, 3)),
+			save("csave", &[3]uint64{2, 2, 8}, &SnapD{I: 5, T: 1, V: v3, D: 77}, seg(6, 3, 2, 0, 9, 40)), {K: "meta"}, {K: "sum"}},
+		// K1: conflict in the current file (zero-fill), shorter batch than the discarded tail
+		{save("save", &[3]uint64{1, 1, 4}, nil, seg(1, 10, 1, 0, 7, 3)),
+			save("csave", &[3]uint64{2, 2, 6}, nil, seg(5, 2, 2, 0, 4, 90)), {K: "reopen"}, {K: "sum"}},
+		// K2: the batch crosses the slot-table limit (rotation: truncate, sync, new file)
+		{save("save", &[3]uint64{1, 1, 29000}, nil, seg(1, 29998, 1, 0, 3, 3)),
+			save("csave", &[3]uint64{1, 1, 30004}, nil, seg(29999, 6, 1, 0, 5, 40)), {K: "sum"}},
+		// K3: conflict into a rotated file (later file removed, zero-fill up to the data area)
+		{save("save", &[3]uint64{1, 1, 29980}, nil, seg(1, 30005, 1, 0, 5, 7)),
+			save("csave", &[3]uint64{2, 1, 29991}, nil, seg(29990, 2, 2, 0, 5, 900)), {K: "reopen"}, {K: "sum"}},
+		// K4: rotation by size with large payloads (images only at the interesting steps)
+		{save("save", nil, nil, seg(1, 5, 1, 0, 4718592, 11)),
+			save("csave", &[3]uint64{1, 1, 8}, nil, seg(6, 3, 1, 0, 4718592, 30)), {K: "sum"}},
+		// K5: hard state / snapshot only
+		{save("save", &[3]uint64{1, 1, 2}, nil, seg(1, 4, 1, 0, 7, 3)),
+			save("csave", &[3]uint64{3, 2, 4}, &SnapD{I: 3, T: 1, V: v3, D: 5}), {K: "meta"}},
+	}
+	// every step of a conflicting Save with hard state and snapshot fails once
+	for k := uint64(0); k < 16; k++ {
+		cs = append(cs, []Op{save("save", &[3]uint64{1, 1, 2}, nil, seg(1, 6, 1, 0, 7, 3)),
+			{K: "fsave", I: k, HS: &[3]uint64{2, 2, 4}, Snap: &SnapD{I: 2, T: 1, V: v3, D: 9}, Segs: []Seg{seg(3, 2, 2, 0, 5, 50)}},
+			{K: "reopen"}, {K: "meta"}, {K: "sum"}})
+	}
+	// ... and of a Save that rotates by size
+	for _, k := range []uint64{0, 1, 2, 3, 4, 5, 6, 7, 8, 9, 10} {
+		cs = append(cs, []Op{save("save", nil, nil, seg(1, 6, 1, 0, 4718592, 11)),
+			{K: "fsave", I: k, HS: &[3]uint64{1, 1, 7}, Segs: []Seg{seg(7, 2, 1, 0, 4718592, 50)}}, {K: "reopen"}, {K: "sum"}})
+	}
+	return cs
 }
 
 type caseGen struct {
@@ -49,6 +95,75 @@ type caseGen struct {
 	n    int
 	tag  uint64
 	term uint64
+	lay  layout
+}
+
+// layout: the generator's own book-keeping of where the rotation rule (slot count, file size) puts each entry, used
+// ONLY to aim operations at the first/last index of entry files (never as an oracle). Indexes start at 1.
+type layout struct {
+	file []int32 // file sequence number of entry i (position i-1)
+	end  []int64 // offset just after its payload
+}
+
+func (l *layout) save(es []Seg) {
+	if len(es) == 0 || es[0].N == 0 {
+		return
+	}
+	b := int(es[0].F)
+	if b < 1 || b > len(l.file)+1 {
+		return
+	}
+	l.file, l.end = l.file[:b-1], l.end[:b-1]
+	f, slot, off := int32(0), 0, int64(raftlog.VerifLogFileOffset)
+	if b > 1 {
+		f, off = l.file[b-2], l.end[b-2]
+		for k := b - 2; k >= 0 && l.file[k] == f; k-- {
+			slot++
+		}
+	}
+	for _, s := range es {
+		for k := 0; k < s.N; k++ {
+			if slot >= raftlog.VerifMaxNumEntries || off+4+int64(s.L) > int64(raftlog.VerifMaxLogFileSize) {
+				f, slot, off = f+1, 0, int64(raftlog.VerifLogFileOffset)
+			}
+			off += 4 + int64(s.L)
+			slot++
+			l.file = append(l.file, f)
+			l.end = append(l.end, off)
+		}
+	}
+}
+
+// bounds returns the first indexes of entry files inside [lo, hi] (at most 8, the highest ones)
+func (l *layout) bounds(lo, hi uint64) []uint64 {
+	var out []uint64
+	for i := len(l.file) - 1; i >= 1 && len(out) < 8; i-- {
+		if l.file[i] != l.file[i-1] {
+			if idx := uint64(i + 1); idx >= lo && idx <= hi {
+				out = append(out, idx)
+			}
+		}
+	}
+	return out
+}
+
+// aim returns, with probability 1/3 when there is one, an index at (or next to) the first index of an entry file
+func (g *caseGen) aim(i, lo, hi uint64) uint64 {
+	if bs := g.lay.bounds(lo, hi); len(bs) > 0 && g.r.Chance(1, 3) {
+		x := gen.Pick(g.r, bs)
+		switch g.r.Intn(4) {
+		case 0:
+			if x > lo {
+				return x - 1
+			}
+		case 1:
+			if x < hi {
+				return x + 1
+			}
+		}
+		return x
+	}
+	return i
 }
 
 func genSource(r *gen.Rand, kind string) source {
@@ -161,7 +276,9 @@ func (g *caseGen) next(w *world, step int) *Op {
 		if r.Chance(1, 3) {
 			n = r.Range(29000, 31000)
 		}
-		return &Op{K: "save", Segs: g.batch(w, 1, n)}
+		op := &Op{K: "save", Segs: g.batch(w, 1, n)}
+		g.lay.save(op.Segs)
+		return op
 	}
 	c := r.Intn(100)
 	switch {
@@ -171,6 +288,9 @@ func (g *caseGen) next(w *world, step int) *Op {
 		lowest := first
 		if w.si+1 > lowest {
 			lowest = w.si + 1
+		}
+		if w.hs.Commit+1 > lowest {
+			lowest = w.hs.Commit + 1 // raft never overwrites a committed entry
 		}
 		if !empty && lowest <= last && r.Chance(2, 5) {
 			switch r.Intn(4) {
@@ -202,14 +322,34 @@ func (g *caseGen) next(w *world, step int) *Op {
 				n = r.Range(1000, 31000)
 			}
 		}
+		if b <= last {
+			b = g.aim(b, lowest, last)
+		}
 		op := &Op{K: "save", Segs: g.batch(w, b, n)}
-		if r.Chance(1, 2) {
-			op.HS = &[3]uint64{g.term, uint64(r.Range(0, 3)), sub(b, uint64(r.Range(0, 3)))}
+		g.lay.save(op.Segs)
+		crashy := false
+		if n <= 40 && r.Chance(1, 30) {
+			crashy = true
+			op.K = "csave"
+			if r.Chance(2, 5) || g.kind == "size" { // images of multi-megabyte directories: one per Save at most
+				op.K = "fsave"
+				op.I = uint64(r.Intn(3*n + 10))
+			}
+		}
+		if r.Chance(1, 2) || crashy {
+			commit := sub(b, uint64(r.Range(0, 3)))
+			if crashy || r.Chance(1, 3) {
+				commit = b + uint64(r.Intn(n)) // commits entries of this very batch
+			}
+			if commit < w.hs.Commit {
+				commit = w.hs.Commit
+			}
+			op.HS = &[3]uint64{g.term, uint64(r.Range(0, 3)), commit}
 			if r.Chance(1, 10) {
 				op.HS = &[3]uint64{0, 0, 0}
 			}
 		}
-		if !empty && b > first && r.Chance(1, 8) {
+		if !empty && b > first && (r.Chance(1, 8) || (crashy && r.Chance(1, 3))) {
 			s := g.pickIndex(maxu(first, w.si), b-1)
 			op.Snap = &SnapD{I: s, T: g.termAt(w, s), D: uint64(r.Intn(60000))}
 			if r.Chance(2, 3) {
@@ -227,6 +367,7 @@ func (g *caseGen) next(w *world, step int) *Op {
 		if g.kind == "count" && r.Chance(1, 2) {
 			lo = g.pickIndex(sub(30000, 3), 30003)
 		}
+		lo = g.aim(lo, first, last)
 		hi := gen.Pick(r, []uint64{lo, lo + 1, lo + 2, lo + uint64(r.Intn(12)), last, last + 1, last + 2})
 		if hi < lo {
 			hi = lo
@@ -249,17 +390,17 @@ func (g *caseGen) next(w *world, step int) *Op {
 		return &Op{K: "ents", Lo: lo, Hi: hi, Max: max}
 	case c < 74:
 		i := gen.Pick(r, []uint64{0, sub(first, 2), sub(first, 1), first, g.pickIndex(first, last), last, last + 1, last + 2, w.si})
-		return &Op{K: "term", I: i}
+		return &Op{K: "term", I: g.aim(i, first, last)}
 	case c < 80:
 		i := gen.Pick(r, []uint64{sub(first, 1), first, g.pickIndex(first, last), g.pickIndex(first, last), last, last + 1})
 		d := &SnapD{D: uint64(r.Intn(60000))}
 		if r.Chance(2, 3) {
 			d.V = []uint64{1, 2, 3}[:r.Range(0, 3)]
 		}
-		return &Op{K: "csnap", I: i, Snap: d}
+		return &Op{K: "csnap", I: g.aim(i, first, last), Snap: d}
 	case c < 86:
 		i := gen.Pick(r, []uint64{sub(first, 1), first, g.pickIndex(first, last), w.si, w.si, last, last + 1})
-		return &Op{K: "del", I: i}
+		return &Op{K: "del", I: g.aim(i, first, last)}
 	case c < 93:
 		return &Op{K: "reopen"}
 	case c < 95:
